@@ -107,7 +107,7 @@ inline void note(uint8_t what, uint8_t a = 0, uint8_t b = 0, uint8_t c = 0) {
 }
 
 using P1_1 = Pay<1, 1>; using P2_2 = Pay<2, 2>; using P3_1 = Pay<3, 1>; using P4_4 = Pay<4, 4>; using P8_8 = Pay<8, 8>;
-using P16_16 = Pay<16, 16>; using P24_8 = Pay<24, 8>; using P32_32 = Pay<32, 32>;
+using P16_16 = Pay<16, 16>; using P24_8 = Pay<24, 8>; using P32_32 = Pay<32, 32>; using P12_4 = Pay<12, 4>; using P5_1 = Pay<5, 1>;
 
 // ---- zoo configuration --------------------------------------------------------------------------
 template <int CFG> struct ZCfg;
@@ -171,7 +171,13 @@ template <> struct ZCfg<15> {   // states 1 and 2 define complementary halves of
 	static constexpr bool bare(int i) { return i == 1 || i == 2; }
 	static constexpr int kind(int i) { return i == 1 ? 2 : i == 2 ? 3 : 0; }
 };
-static constexpr int ZOO_COUNT = 16;
+VF_ZCFG_BEGIN(16, 64, true, false, P12_4, 6, 0, 3)   // the largest machine the 64-bit activity masks of the trace can describe; serial form is exactly one byte
+	static constexpr int inj(int i) { return i == 63 ? 1 : 0; } static constexpr int headInj() { return 0; } static constexpr bool bare(int) { return false; }
+VF_ZCFG_END
+VF_ZCFG_BEGIN(17, 7, false, true, P5_1, 4, 7, 2)   // odd payload size, headless + manual + reference context
+	static constexpr int inj(int i) { return i == 2 ? 2 : 0; } static constexpr int headInj() { return 0; } static constexpr bool bare(int) { return false; }
+VF_ZCFG_END
+static constexpr int ZOO_COUNT = 18;
 
 // ---- config type builder --------------------------------------------------------------------------
 template <class C, int K> struct WithCtx;
